@@ -147,6 +147,24 @@ func c06Run(c *Ctx) {
 			}
 		}
 	}
+	// thorough: the full product flag octet x odd sequence number for every type and both minor versions
+	if !c.Quick {
+		for _, typ := range []byte{1, 2, 3} {
+			for _, ver := range []byte{0xc0, 0xc1} {
+				for fl := 0; fl < 256; fl++ {
+					job++
+					if !c.Mine(job) {
+						continue
+					}
+					for seq := 1; seq <= 255; seq += 2 {
+						for _, rp := range []string{"min", "author", "acct"} {
+							emit([]c06Event{{H: ref.Header{Version: ver, Type: typ, Seq: byte(seq), Flags: byte(fl), Session: 0x80000001}, Reply: rp}})
+						}
+					}
+				}
+			}
+		}
+	}
 	// plane 2: type x minor x session x flags x seq
 	for _, typ := range []byte{1, 2, 3} {
 		for _, ver := range []byte{0xc0, 0xc1} {
